@@ -156,6 +156,16 @@ Proof.
   - intros x H. apply Hz. pose proof (cnt_remove1 f x lo) as R. rewrite E in R. cbn [cnt] in H. destruct (Nat.eqb f x); lia.
 Qed.
 
+Lemma pres_openabort cf s f s' : Inv s -> step cf s (OpenAbort f) = Some s' -> Inv s'.
+Proof.
+  intros HI Hs. start s HI Hs.
+  assert (Rx : forall x, cnt x (remove1 f lo) + (if Nat.eqb f x then 1 else 0) = cnt x lo)
+    by (intros x; pose proof (cnt_remove1 f x lo) as R; rewrite E in R; exact R).
+  constructor; unfold loc, held_files; projs; auto.
+  - intros x. specialize (Hloc x). specialize (Rx x). updf x f; [rewrite Nat.eqb_refl in Rx|destruct (Nat.eqb_spec f x); [congruence|]]; lia.
+  - intros x H. apply Hz. specialize (Rx x). revert H. updf x f; [rewrite Nat.eqb_refl in Rx|destruct (Nat.eqb_spec f x); [congruence|]]; lia.
+Qed.
+
 Lemma pres_get cf s k h s' : Inv s -> step cf s (Get k h) = Some s' -> Inv s'.
 Proof.
   intros HI Hs. start s HI Hs. pose proof (lookup_in _ _ _ E1) as Lk.
@@ -307,7 +317,7 @@ Qed.
 Theorem inv_step cf s l s' : Inv s -> step cf s l = Some s' -> Inv s'.
 Proof.
   destruct l.
-  - apply pres_open. - apply pres_openfail. - apply pres_get. - apply pres_setf. - apply pres_newreader. - apply pres_read.
+  - apply pres_open. - apply pres_openfail. - apply pres_openabort. - apply pres_get. - apply pres_setf. - apply pres_newreader. - apply pres_read.
   - apply pres_dec. - apply pres_cleantick. - apply pres_closebegin. - apply pres_closecollect. - apply pres_release.
 Qed.
 
@@ -471,6 +481,15 @@ Proof.
   intros x P. apply G7. pose proof (cnt_remove1 f x lo) as R. rewrite E in R. cbn [cnt] in P. destruct (Nat.eqb f x); lia.
 Qed.
 
+Lemma hpres_openabort cf s f s' : Inv s -> HInv cf s -> step cf s (OpenAbort f) = Some s' -> HInv cf s'.
+Proof.
+  intros HI HH Hs. startH s HI HH Hs. apply memb_cnt in E.
+  constructor; unfold is_big; projs; auto.
+  - intros b. rewrite (G4 b). unfold upd. destruct (Nat.eqb_spec (bo b) f) as [Eo|]; [|reflexivity].
+    rewrite Eo. rewrite (G7 f) by lia. cbn. lia.
+  - intros x P. apply G7. pose proof (cnt_remove1 f x lo) as R. destruct (memb f lo); destruct (Nat.eqb f x); lia.
+Qed.
+
 Lemma hpres_get cf s k h s' : Inv s -> HInv cf s -> step cf s (Get k h) = Some s' -> HInv cf s'.
 Proof.
   intros HI HH Hs. startH s HI HH Hs. constructor; unfold is_big; projs; auto.
@@ -610,7 +629,7 @@ Qed.
 Theorem hinv_step cf s l s' : Inv s -> HInv cf s -> step cf s l = Some s' -> HInv cf s'.
 Proof.
   intros HI HH. destruct l.
-  - now apply hpres_open. - now apply hpres_openfail. - now apply hpres_get. - now apply hpres_setf.
+  - now apply hpres_open. - now apply hpres_openfail. - now apply hpres_openabort. - now apply hpres_get. - now apply hpres_setf.
   - now apply hpres_newreader. - now apply hpres_read. - now apply hpres_dec.
   - now apply hpres_trivial. - now apply hpres_trivial. - now apply hpres_trivial. - now apply hpres_release.
 Qed.
